@@ -828,7 +828,6 @@ func resolveLocal(info *types.Info, body ast.Node, e ast.Expr) ast.Expr {
 	return e
 }
 
-
 // ReachingDefs: the right-hand sides of the assignments to local variable obj that can reach point at (no other
 // assignment to obj in between), on paths that respect avoidEdge. ok=false if a definition without a usable
 // right-hand side (tuple assignment, range variable, inc/dec) reaches.
@@ -885,7 +884,6 @@ func (r *RuleCtx) ReachingDefs(obj types.Object, at Pt, avoidEdge func(b *cfgBlo
 	}
 	return defs, ok
 }
-
 
 // mayReturnNil: local error variable v is returned at exit point ex; is there a definition of v from which ex is
 // reachable with v nil and not redefined? Definitions by surely non-nil expressions are skipped; parameters and
@@ -949,4 +947,23 @@ func (r *RuleCtx) mayReturnNil(ex Pt, v *types.Var) bool {
 		r.nilRet[ex] = 1
 	}
 	return res
+}
+
+// LoopHeadIs: p is the point at which the loop is entered (the range expression; the init statement or, without
+// one, the condition of a counting loop).
+func (f *Flow) LoopHeadIs(l *ElemLoop, p Pt) bool {
+	n := p.Node()
+	if n == nil {
+		return false
+	}
+	switch s := l.Stmt.(type) {
+	case *ast.RangeStmt:
+		return n == ast.Node(s.X)
+	case *ast.ForStmt:
+		if s.Init != nil {
+			return n == ast.Node(s.Init)
+		}
+		return s.Cond != nil && n == ast.Node(s.Cond)
+	}
+	return false
 }
